@@ -71,7 +71,19 @@ def gen_history(rng):
     labelsA, opts, tag = WL.gen_case(rng, max_n=60)
     labelsA = proviso(labelsA)
     labelsB = proviso(WL.gen_case(rng, max_n=30)[0])
-    ops = [["nodes", "A", rng.choice(["fresh", "fresh", "stale", "permuted", "stale+permuted"])], ["compute"]]
+    r = rng.random()
+    if r < 0.15:
+        # B has A's length and A's positions, other widths (anything cached per index or per position shows)
+        labelsB = proviso([{"pos": l["pos"], "w": max(1.0, l["w"] * rng.choice([0.5, 1.0, 2.0, 3.0]))} for l in labelsA])
+    elif r < 0.25:
+        # B is A moved by a constant
+        sh = rng.choice([-40.0, 13.0, 250.0])
+        labelsB = [{"pos": l["pos"] + sh, "w": l["w"]} for l in labelsA]
+    ops = []
+    if rng.random() < 0.2:
+        # options changed before any labels were given
+        ops.append(["set_options", rng.choice(OPTION_DELTAS)])
+    ops += [["nodes", "A", rng.choice(["fresh", "fresh", "stale", "permuted", "stale+permuted"])], ["compute"]]
     for _ in range(rng.randrange(1, 6)):
         r = rng.random()
         if r < 0.35:
